@@ -67,6 +67,11 @@ def typed_literal_graphs():
             ("abc", "string"), ("", "string"), ("AQID", "base64Binary"), ("0A", "hexBinary"), ("1", "float"), ("5", "byte"), ("http://x.example/", "anyURI")]
     for i, (lex, dt) in enumerate(vals):
         yield ("typed:%s:%s" % (dt, lex), [[S1, P1, L(lex, dt=XSD + dt)], [S1, P2, L(lex)]], True)
+    # ill-typed literals of the datatypes that have shorthand / fast paths, with characters every writer has to escape
+    ill = [("5' 11\"", "decimal"), ("1\\2", "integer"), ("2020-02-30\n", "date"), ("12:00\r", "time"), ("yes\"no", "boolean"), ("1e\t5", "double"), ("a\"b\\c\nd", "float"),
+           ("\"", "integer"), ("2020-01-01T00:00:00\"Z", "dateTime"), ("", "integer"), (" 1", "integer"), ("1 ", "decimal"), ("\u00e9", "int"), ("\U0001F600", "long")]
+    for lex, dt in ill:
+        yield ("typed-ill:%s:%r" % (dt, lex), [[S1, P1, L(lex, dt=XSD + dt)], [S2, P1, L(lex, dt=XSD + dt)], [S1, P2, L("ok")]], True)
 
 
 def iri_graphs():
